@@ -12,6 +12,16 @@ import numpy as np
 
 def main():
     job = json.load(sys.stdin)
+    # other models built and run earlier in this process (C11: a run must not depend on what ran before it)
+    for other in job.get("before", []):
+        J = interp.Interp()
+        okb = True
+        for op in other["ops"]:
+            if not J.apply(op)["ok"]:
+                okb = False; break
+        if okb:
+            for run in other["runs"]:
+                J.apply(run)
     I = interp.Interp()
     for op in job["ops"]:
         r = I.apply(op)
